@@ -85,7 +85,8 @@ def term_text(t):
 
 def render_file(sc, rng):
     stmt_rules = any(r["t"] == "sren" for r in sc["rules"])
-    out = ["// Package doc.\npackage %s\n\nfunc f() {\n" % sc["pkg"]]
+    # (x is a parameter: the identifier x of the file's code is a resolved name, unlike the copies a change makes of it)
+    out = ["// Package doc.\npackage %s\n\nfunc f(x int) {\n" % sc["pkg"]]
     ind = "\t"
     if sc.get("copied"):
         out.append("\trun(func() {\n")
@@ -180,6 +181,13 @@ FREE.append(dict(src="package a\n\nfunc f() {\n\t_ = []string{drop}\n\t_ = []str
 FREE.append(dict(src="package a\n\nimport \"net/url\"\n\nfunc f() {\n\t_ = url.Parse\n\tg()\n}\n",
                  changes=["@ c1 @\n@@\n-g()\n+url := mk()\n+url.Host()\n",
                           "@ c2 @\n@@\n-import \"net/url\"\n\n-url.Parse\n+parse\n"]))
+
+
+# ... and the mirror image: the local variable that shadowed the import is removed by change k, the selectors that
+# referred to it now mean the package, but still carry the resolution information of the parse
+FREE.append(dict(src="package a\n\nimport \"log\"\n\nfunc f() {\n\tlog := newLogger()\n\tlog.Println(\"x\")\n}\n\nfunc g() {\n\tlog.Fatal(\"y\")\n}\n",
+                 changes=["@ c1 @\n@@\n-log := newLogger()\n+setup()\n",
+                          "@ c2 @\n@@\n import \"log\"\n\n-log.Fatal(\"y\")\n+panic(\"y\")\n"]))
 
 
 FREE.append(dict(src="package a\n\nimport (\n\t\"fmt\"\n\t\"os\"\n)\n\n// Doc of B.\nfunc B() {\n\tx := foo(1, /* two */ 2)\n\tfmt.Println(x, os.Args)\n}\n",
